@@ -128,6 +128,7 @@ def units(tier):
     from props import c11_mcd as MC
     _wrap(us, "C11.multi_D.moles_move_under_the_same_element", MC.unit_mcd_bookkeeping)
     _wrap(us, "C11.fill_m_s.giving_and_receiving_totals_get_the_same_multiple", MC.unit_fill_m_s_symmetry)
+    _wrap(us, "C11.diffuse_implicit.hydrogen_and_oxygen_booked_alike", MC.unit_h_o_twin_blocks)
     return us
 
 
